@@ -64,6 +64,7 @@ def run(ck, tier, seed):
     # second clause: both interpreters shape the corpus identically (same compiler, same flags)
     js = corpus.jobs(maxlines=60 if tier == "quick" else 100000, chunk=0)
     js += corpus.jobs(maxlines=40 if tier == "quick" else 400, chunk=24, dirs=[0, 1, 3], with_fonttests=True)
+    js += corpus.random_jobs(n=120 if tier == "quick" else 3000, seed=seed, dirs=[0, 1])
     jf = os.path.join(tmp, "jobs.ndjson")
     open(jf, "w").write("\n".join(json.dumps(j) for j in js) + "\n")
     for a, b in (("san", "sand"), ("relc", "reld")):
